@@ -197,10 +197,19 @@ def _kw(call: ast.Call, name: str):
     return None
 
 
+def _rebinds(scope, name) -> bool:
+    """Is the plain name (a parameter) assigned to anywhere in the scope?  Then `name` at a call site need not be
+    the value that came in."""
+    return any(isinstance(n, ast.Name) and n.id == name and isinstance(n.ctx, (ast.Store, ast.Del)) for n in ast.walk(scope))
+
+
 def _link_all_calls(scope, callee, kw, accepted, where) -> bool:
     cs = _calls(scope, callee)
     if not cs:
         raise TranslationError(f"{where}: no call of {callee} found")
+    plain = [a for a in accepted if a.isidentifier()]
+    if any(_rebinds(scope, a) for a in plain):
+        return False
     return all(_kw(c, kw) in accepted for c in cs)
 
 
@@ -305,7 +314,7 @@ def _setter(tree, cls, attr, field, where):
     if len(params) != 2:
         fail(fn, f"{where}: setter signature")
     val = params[1]
-    body = [st for st in body_no_doc(fn) if not isinstance(st, ast.Pass)]
+    body = [st for st in norm.ifelse_to_ifexp(norm.guards_to_ifelse(body_no_doc(fn))) if not isinstance(st, ast.Pass)]
     while body and isinstance(body[0], ast.If) and not body[0].orelse \
             and all(isinstance(x, ast.Raise) for x in body[0].body):
         body = body[1:]                                   # validation that only raises
@@ -445,11 +454,12 @@ def links(repo: Path) -> list[tuple[str, str, str, str]]:
     au = _calls(rwd, "apply_ufunc")
     if len(au) != 1:
         raise TranslationError("run_pipelines_with_dask: expected one apply_ufunc call")
-    kwargs = [k.value for k in au[0].keywords if k.arg == "kwargs"]
+    kwargs = [norm.resolve(rwd, k.value) for k in au[0].keywords if k.arg == "kwargs"]   # dict display, or a name bound once to one
     ok = False
     if len(kwargs) == 1 and isinstance(kwargs[0], ast.Dict):
         for k, v in zip(kwargs[0].keys, kwargs[0].values):
-            if isinstance(k, ast.Constant) and k.value == "pipeline_seed" and ast.unparse(v) == "pipeline_seed":
+            if isinstance(k, ast.Constant) and k.value == "pipeline_seed" and ast.unparse(v) == "pipeline_seed" \
+                    and not _rebinds(rwd, "pipeline_seed"):
                 ok = True
     if not au[0].args or ast.unparse(au[0].args[0]) != "_run_pipelines_tuple_to_array":
         raise TranslationError("apply_ufunc no longer applies _run_pipelines_tuple_to_array")
@@ -509,7 +519,7 @@ def _island_seeds_ok(repo) -> bool:
     `default_rng(self.pygmo_seed)` (list comprehension, or append()s in a loop), and create_island hands its seed
     to pg.island.  _build is read after the general normalisations (the derivation may live in a private helper)."""
     fn = _build_fn(repo)
-    _, seed_names = _island_build(fn)
+    _, seed_names, maker_names = _island_build(fn)
     rng_names = set()
     for tgt, v in _assigns(fn):
         if isinstance(tgt, ast.Name) and isinstance(v, ast.Call) and _callname(v).endswith("default_rng"):
@@ -531,9 +541,11 @@ def _island_seeds_ok(repo) -> bool:
                 and uses_rng(c.args[0]):
             ok_names.add(c.func.value.id)
     seeds_from_rng = bool(seed_names) and seed_names <= ok_names
-    ci = [f for f in ast.walk(fn) if isinstance(f, ast.FunctionDef) and f.name == "create_island"]
+    if len(maker_names) != 1:
+        raise TranslationError("_build: the two branches create the islands with different functions")
+    ci = [f for f in ast.walk(fn) if isinstance(f, ast.FunctionDef) and f.name in maker_names]
     if len(ci) != 1:
-        raise TranslationError("_build: expected one local create_island")
+        raise TranslationError("_build: expected one local function that creates an island from a seed")
     params = [a.arg for a in ci[0].args.args]
     isl = [c for c in ast.walk(ci[0]) if isinstance(c, ast.Call) and _callname(c).split(".")[-1] == "island"]
     hands = bool(params) and len(isl) == 1 and _kw(isl[0], "seed") == params[0]
@@ -547,8 +559,8 @@ def island_build(repo: Path) -> list[tuple[str, str]]:
 
 
 def _island_build(fn):
-    """-> (rows, names of the lists the islands are created from)"""
-    seed_names = set()
+    """-> (rows, names of the lists the islands are created from, names of the function that creates one island)"""
+    seed_names, maker_names = set(), set()
     ifs = [n for n in fn.body if isinstance(n, ast.If) and ast.unparse(n.test) == "self.parallel"]
     if len(ifs) != 1 or not ifs[0].orelse:
         raise TranslationError("_build: expected one `if self.parallel: ... else: ...`")
@@ -588,20 +600,22 @@ def _island_build(fn):
             # a list of futures read in order
             if isinstance(it, ast.ListComp) and pushed == f"{var}.result()" and _is_submit_comp(it):
                 seed_names.add(it.generators[0].iter.id)
+                maker_names.add(it.elt.args[0].id)
                 return "BMap"
             raise TranslationError(f"_build ({where}): iterable `{ast.unparse(it)}` has a shape the translator does not know")
         nm = _callname(it)
         last = nm.split(".")[-1]
-        if last == "map" and len(it.args) == 2 and ast.unparse(it.args[0]) == "create_island" \
+        if last == "map" and len(it.args) == 2 and isinstance(it.args[0], ast.Name) \
                 and isinstance(it.args[1], ast.Name) and pushed == var:
             seed_names.add(it.args[1].id)
+            maker_names.add(it.args[0].id)
             return "BMap"                       # builtin map / executor.map: results in submission order
         if last == "as_completed":
             return "BAsCompleted"
         raise TranslationError(f"_build ({where}): iterable `{ast.unparse(it)}` has a shape the translator does not know")
 
     rows = [("parallel", kind_of(ifs[0].body, "parallel")), ("sequential", kind_of(ifs[0].orelse, "sequential"))]
-    return rows, seed_names
+    return rows, seed_names, maker_names
 
 
 def _is_submit_comp(lc: ast.ListComp) -> bool:
@@ -609,7 +623,7 @@ def _is_submit_comp(lc: ast.ListComp) -> bool:
         return False
     e = lc.elt
     return isinstance(e, ast.Call) and _callname(e).split(".")[-1] == "submit" and len(e.args) == 2 \
-        and ast.unparse(e.args[0]) == "create_island" and ast.unparse(e.args[1]) == ast.unparse(lc.generators[0].target)
+        and isinstance(e.args[0], ast.Name) and ast.unparse(e.args[1]) == ast.unparse(lc.generators[0].target)
 
 
 def _with_seed_expr(w: ast.With):
